@@ -64,7 +64,7 @@ def insertStr (s : Str) : List Str → List Str
 
 def lcpsOf : List Str → List Nat
   | [] => []
-  | s :: rest => 0 :: (List.zipWith lcp (s :: rest) rest)
+  | s :: rest => 0 :: (List.zipWith (fun a b => lcpT (lcp a b)) (s :: rest) rest)
 
 /-- specification of `insertion_sort(strptr, depth, 0)` (property C03) -/
 def baseSort (strs : List Str) : Res :=
@@ -75,21 +75,22 @@ def baseSort (strs : List Str) : Res :=
 property C03 (LCP overload) on an LCP range whose slots hold 0 -/
 def insSort (depth : Nat) (strs : List Str) : Res :=
   let r := C03.insertionSort (fun s : Str => s) true depth strs (List.replicate strs.length 0)
-  { out := r.1, lcp := r.2 }
+  -- the C03 model keeps LCP values as naturals; the array it writes is `LcpType*`
+  { out := r.1, lcp := r.2.map lcpT }
 
 /-- `fill_lcp(v)`: entries 1.. of the range -/
 def fillLcp (n v : Nat) : List Nat :=
   match n with
   | 0 => []
-  | k + 1 => 0 :: List.replicate k v
+  | k + 1 => 0 :: List.replicate k (lcpT v)
 
 /-- the finished range of `n` equal strings -/
 def doneRes (strs : List Str) (v : Nat) : Res := { out := strs, lcp := fillLcp strs.length v }
 
 def Res.append (a b : Res) : Res := { out := a.out ++ b.out, lcp := a.lcp ++ b.lcp }
 
-/-- `set_lcp(i, v)` -/
-def setLcp (l : List Nat) (i v : Nat) : List Nat := l.set i v
+/-- `set_lcp(i, v)`: `lcp_[i] = v` with `LcpType* lcp_` -/
+def setLcp (l : List Nat) (i v : Nat) : List Nat := l.set i (lcpT v)
 
 /-- state of `ps5_sample_sort_lcp` while walking over the buckets -/
 structure LcpWalk where
@@ -206,7 +207,8 @@ def sampleBody (env : Env) (rec : Rec) (mode : Mode) (strs : List Str) (depth : 
   let samples ← (env.sampler n (2 * ns)).mapM fun i => liftO .oob keys[i]?
   let samples := (samples.mergeSort (fun a b => a ≤ b)).toArray
   let c ← liftO .oob (build tb samples)
-  let ids ← keys.mapM fun k => liftO .oob (c.findBkt env.p.useCalc k)
+  -- `std::uint16_t* bktcache`
+  let ids ← keys.mapM fun k => liftO .oob ((c.findBkt env.p.useCalc k).map u16)
   let bkts := bucketsOf strs ids bktnum
   let rs ← bkts.zipIdx.mapM (bucketBody env rec mode c depth bktnum)
   let out := (rs.map (·.out)).flatten
@@ -217,13 +219,17 @@ def sampleBody (env : Env) (rec : Rec) (mode : Mode) (strs : List Str) (depth : 
 
 /-- `MKQSStep::calculate_lcp` on the concatenated `<`, `=`, `>` parts -/
 def mkqsLcp (depth : Nat) (pivot maxLt minGt : Key) (nlt neq ngt : Nat) (lcps : List Nat) : List Nat :=
-  let l1 := if nlt > 0 then setLcp lcps nlt (depth + lcpKeyType maxLt pivot) else lcps
-  if ngt > 0 then setLcp l1 (nlt + neq) (depth + lcpKeyType pivot minGt) else l1
+  -- `std::uint8_t lcp_lt_, lcp_gt_` hold the key-relative values; `depth_` is added in `size_t`
+  let lcp_lt := u8 (lcpKeyType maxLt pivot)
+  let lcp_gt := u8 (lcpKeyType pivot minGt)
+  let l1 := if nlt > 0 then setLcp lcps nlt (depth + lcp_lt) else lcps
+  if ngt > 0 then setLcp l1 (nlt + neq) (depth + lcp_gt) else l1
 
 /-- the `=` part of an MKQS step: finished when the pivot key contains the terminator, otherwise
 sorted deeper (`insertion_sort_cache<true>` = `insertion_sort` resp. a new `MKQSStep`) -/
 def mkqsEq (env : Env) (rec : Rec) (eq : List Str) (depth : Nat) (pivot : Key) : M Res :=
-  if lowByte pivot = 0 then pure (doneRes eq (depth + lcpKeyDepth pivot))
+  -- `std::uint8_t lcp_eq_ = lcpKeyDepth(pivot)`; `fill_lcp(ms.depth_ + ms.lcp_eq_)`
+  if lowByte pivot = 0 then pure (doneRes eq (depth + u8 (lcpKeyDepth pivot)))
   else if eq.length < env.p.inssort then pure (insSort (depth + 8) eq)
   else rec .mkqs eq (depth + 8)
 
